@@ -119,13 +119,21 @@ pub struct Ctx {
     pub turn_starts: Vec<(usize, String)>,
     /// pool building (concurrent scenarios): states at which the repetition rules withhold something
     pub dfs_budget: usize,
+    /// coverage-guided exploration: feature key of the last fully checked state, the keys known
+    /// before this generation, and the keys this run has produced
+    pub guided: bool,
+    pub last_feature: Option<u64>,
+    /// how interesting the state of `last_feature` is as a starting point (sampling weight)
+    pub last_feature_weight: u32,
+    pub known_features: std::sync::Arc<FpSet>,
+    pub run_features: FpSet,
     pub capture_limit: usize,
     pub captured: Vec<(u8, arimaa_engine_step::GameState)>,
 }
 
 impl Ctx {
     pub fn new(own: PropMask) -> Ctx {
-        Ctx { own, findings: vec![], stats: Stats::default(), evals: 0, distinct: FpSet::default(), states: FpSet::default(), capped: false, digest: 0, record_turn_starts: false, turn_starts: vec![], dfs_budget: 1000, capture_limit: 0, captured: vec![] }
+        Ctx { own, findings: vec![], stats: Stats::default(), evals: 0, distinct: FpSet::default(), states: FpSet::default(), capped: false, digest: 0, record_turn_starts: false, turn_starts: vec![], dfs_budget: 1000, guided: false, last_feature: None, last_feature_weight: 1, known_features: std::sync::Arc::new(FpSet::default()), run_features: FpSet::default(), capture_limit: 0, captured: vec![] }
     }
     /// record that monitor `monitor` (owned by `owners`) was evaluated; if `bad`, record a finding
     #[inline]
